@@ -69,6 +69,9 @@ theorem limits_spec (L : Lits K) (P : Params K) (s : State K) (hd : P.direction 
   generalize hs2 : (if s1.h < P.hmin ∧ P.hmin > L.zero then ({ s1 with h := P.hmin, nEqual := 0, luCurrent := false } : State K) else s1) = s2 at hx2
   have hinv2 : P.direction * (s2.x - P.xend) ≤ 0 := by rw [hx2]; exact hi
   split
+  · -- a retry below min_step: StepSizeTooSmall, never Success
+    intro h; simp [result] at h
+  split
   · rename_i hov
     split
     · rename_i hz0
